@@ -187,7 +187,19 @@ class Instance(object):
             self.dispatcher = EventDispatcher(self.engine, self.config)
             if self.config["event_queue"]["queue_implementation"].endswith("-asyncio"):
                 self.coro = self.dispatcher.start_asyncio()
-                self.coro.send(None)
+                self.waiting = None
+                self.boot_steps = 0
+                if self.world.sc.get("slow_start") and (self.generation > 1 or self.world.sc.get("slow_start") == "always"):
+                    # the broker's confirmations travel like any other frame while this instance starts up: start_asyncio is
+                    # suspended at each of its awaits and resumed by the explorer ('call' events), so what is already waiting
+                    # in a queue can be delivered between two start-up steps
+                    b.defer_confirms_for_new_connections = True
+                    try:
+                        self.waiting = self.coro.send(None)
+                    finally:
+                        b.defer_confirms_for_new_connections = False
+                else:
+                    self.coro.send(None)
                 self.alive = True
             else:
                 # blocking transport: EventDispatcher.start() blocks in start_consuming(); it runs on its own thread which
@@ -227,6 +239,28 @@ class Instance(object):
             if not self.alive:
                 b.drop_connection(self.conn)
         return self.alive
+
+    def resume_boot(self):
+        """Continue start_asyncio after the confirmation it was waiting for has been handled."""
+        while self.alive and self.coro is not None and self.waiting is not None and self.waiting.done():
+            self.boot_steps = getattr(self, "boot_steps", 0) + 1
+            try:
+                self.waiting = self.coro.send(None)
+            except StopIteration:
+                self.waiting = None
+                self.alive = False
+                self.start_error = "start_asyncio returned"
+                break
+            except SystemExit as e:
+                self.waiting = None
+                self.start_error = "SystemExit(%s)" % (e.code,)
+                self.world.escaped.append((self.world.step_no, ("boot", self.idx), self.start_error))
+                self.world.broker.log("process_exit", instance=self.idx, site=None)
+                self.crash()
+                break
+        if self.conn is not None and self.waiting is not None and not self.conn.pending_calls and getattr(self.conn, "defer_confirms", False):
+            # nothing left to confirm: start-up is over (start_asyncio now waits for the connection to close)
+            self.conn.defer_confirms = False
 
     def crash(self):
         """The process dies: broker sees the connection drop; all volatile state is gone."""
@@ -523,6 +557,8 @@ class World(object):
                 running = conn.instance
                 cb, _ = conn.pending_calls.pop(0)
                 cb()
+                if running is not None and getattr(running, "waiting", None) is not None:
+                    running.resume_boot()
             elif kind == "timer":
                 conn = self._conn(label[1])
                 running = conn.instance
@@ -727,7 +763,8 @@ class World(object):
             self.started.append(arn)
             self.publish_event(ev, call.get("queue", self.shared_queue))
         elif op == "raw":
-            self.publish_raw(call["body"], call.get("queue", self.shared_queue), call.get("message_id"))
+            body = bytes.fromhex(call["body_hex"]) if "body_hex" in call else call["body"]      # (body_hex: bytes that are not UTF-8)
+            self.publish_raw(body, call.get("queue", self.shared_queue), call.get("message_id"))
             if call.get("arn"):
                 self.started.append(call["arn"])
         elif op == "call":
